@@ -330,6 +330,12 @@ func (c *c08Db) await(committed bool, nActions int) bool {
 //	u   db.Update(ctx, func..) with the context of the running transaction: joins it; closed by )
 //	b   db.Batch(ctx, func..) likewise
 //	)   end of the nested function
+//	x   ctx2 := boltz.NewTxMutateContext(ctx.Context(), ctx.Tx()): what follows up to the closing ) is done with a
+//	    SECOND context built around the running transaction (store_c08_w3.go; only at the top level of the function)
+//
+// A transaction with the pseudo veto "@rawtx" is opened by the CALLER on the bbolt database and wrapped with
+// boltz.NewTxMutateContext (store_c08_w3.go): '|' then is the constructor call, what precedes it is registered on the
+// new context right after it.
 //
 // Operations the program has no '.' for run at the end of the outermost function.  The program of a
 // history without HOOKS section is c08DefaultProg: what every transaction registered before programs
@@ -354,6 +360,10 @@ type c08Exec struct {
 	regC     []string // labels of the commit actions registered so far (incl. those a q action will add)
 	regP     []string
 	bodyDone bool // the outermost function ran to its end
+
+	// third strengthening (store_c08_w3.go)
+	dead    int  // > 0: registrations go to a context built AROUND an existing transaction - nobody runs its pre-commit actions
+	regWrap bool // registrations are made through ctx.GetSystemContext() instead of ctx itself
 }
 
 func (x *c08Exec) commitAction(label string) func() {
@@ -370,6 +380,9 @@ func (x *c08Exec) commitAction(label string) func() {
 // register carries out one of c p f q on the context
 func (x *c08Exec) register(ctx boltz.MutateContext, ch byte) {
 	c := x.c
+	if x.regWrap {
+		ctx = ctx.GetSystemContext()
+	}
 	switch ch {
 	case 'c':
 		label := fmt.Sprintf("c%d", x.nC)
@@ -381,7 +394,7 @@ func (x *c08Exec) register(ctx boltz.MutateContext, ch byte) {
 		qlabel := fmt.Sprintf("q%d", x.nP)
 		x.nP++
 		x.regP = append(x.regP, label)
-		if ch == 'q' {
+		if ch == 'q' && x.dead == 0 {
 			x.regC = append(x.regC, qlabel)
 		}
 		ctx.AddPreCommitAction(func(actx boltz.MutateContext) error {
@@ -459,6 +472,15 @@ func (x *c08Exec) items(ctx boltz.MutateContext, pos int, depth int) (int, error
 				return after, err
 			}
 			pos = after
+		case 'x':
+			// part of the work is done with a second context built around the transaction of the running one
+			x.dead++
+			after, err := x.items(c08SecondCtx(ctx), pos, depth+1)
+			x.dead--
+			if err != nil {
+				return after, err
+			}
+			pos = after
 		}
 	}
 	if depth == 0 {
@@ -497,9 +519,15 @@ func (c *c08Db) runTx(t *hTx, mode, prog string) *c08Seg {
 		ctx = ctx.GetSystemContext()
 	}
 	x := &c08Exec{c: c, t: t, mode: mode, prog: prog}
+	// pseudo veto "@rawtx": the caller opens the bbolt transaction itself and wraps it with NewTxMutateContext
+	rawSpec, raw := c08PseudoVeto(t, c08RawTx)
+	if raw {
+		x.dead = 1
+		x.regWrap = strings.Contains(rawSpec, "w") && !t.Sys
+	}
 	// on the context object, before the transaction exists
 	start := strings.IndexByte(prog, '|')
-	for k := 0; k < start; k++ {
+	for k := 0; k < start && !raw; k++ {
 		x.register(ctx, prog[k])
 	}
 	preC, preP, preRegC, preRegP := x.nC, x.nP, len(x.regC), len(x.regP)
@@ -524,13 +552,18 @@ func (c *c08Db) runTx(t *hTx, mode, prog string) *c08Seg {
 				err = fmt.Errorf("panic in the transaction body: %v", r)
 			}
 		}()
+		for k := 0; k < start && raw; k++ {
+			x.register(ctx, prog[k]) // right after NewTxMutateContext(.., tx)
+		}
 		if _, err = x.items(ctx, start+1, 0); err == nil {
 			x.bodyDone = true
 		}
 		return err
 	}
 	var err error
-	if partners, co := c08PseudoVeto(t, c08CoBatch); co && mode == "bat" && partners != "" {
+	if raw {
+		err = c.runRawTx(rawSpec, t.Sys, body)
+	} else if partners, co := c08PseudoVeto(t, c08CoBatch); co && mode == "bat" && partners != "" {
 		err = c.runCoalesced(ctx, body, partners)
 	} else if mode == "bat" {
 		err = h.db.Batch(ctx, body)
@@ -755,6 +788,10 @@ func runC08(o *opts) error {
 			if _, ok := c08PseudoVeto(&t, c08CoBatch); ok {
 				stats["tx_coalesced_batch"]++
 			}
+			if spec, ok := c08PseudoVeto(&t, c08RawTx); ok {
+				stats["tx_caller_managed"]++
+				stats["tx_caller_managed_"+spec]++
+			}
 			if t.PreCommitErr {
 				stats["tx_precommit_err"]++
 			}
@@ -844,6 +881,9 @@ func runC08(o *opts) error {
 		}
 		if kind.coBatch {
 			stats["histories_coalesced_batch"]++
+		}
+		if kind.rawTx {
+			stats["histories_caller_managed_tx"]++
 		}
 	}
 	stats["batch_reruns_of_succeeded_function"] = c08Reruns
